@@ -28,7 +28,7 @@ def mask_runs(m):
     return runs
 
 
-def and_const(x, m):
+def and_const(x, m, it=None):
     """x & m for z3 Int x and python int m >= 0 (exact for all integers x: floor div/mod)."""
     if m == 0:
         return z3.IntVal(0)
@@ -36,8 +36,8 @@ def and_const(x, m):
     for lo, w in mask_runs(m):
         t = x
         if lo:
-            t = t / (1 << lo)
-        t = t % (1 << w)
+            t = t / (1 << lo) if it is None else divmod_const(it, t, 1 << lo)[0]
+        t = t % (1 << w) if it is None else divmod_const(it, t, 1 << w)[1]
         if lo:
             t = t * (1 << lo)
         terms.append(t)
@@ -162,25 +162,25 @@ def int_binop(it, op, a, b, node):
         return mk_int(A / B if isinstance(op, ast.FloorDiv) else A % B)
     if isinstance(op, ast.BitAnd):
         if cb and b >= 0:
-            return mk_int(and_const(A, b))
+            return mk_int(and_const(A, b, it))
         if ca and a >= 0:
-            return mk_int(and_const(B, a))
+            return mk_int(and_const(B, a, it))
         if (cb and b < 0) or (ca and a < 0):
             # x & negative const = x - (x & ~const)
             x, c = (A, b) if cb else (B, a)
-            return mk_int(x - and_const(x, ~c))
+            return mk_int(x - and_const(x, ~c, it))
         return mk_int(and_sym(it, A, B))
     if isinstance(op, ast.BitOr):
         if cb and b >= 0:
-            return mk_int(A + b - and_const(A, b))
+            return mk_int(A + b - and_const(A, b, it))
         if ca and a >= 0:
-            return mk_int(B + a - and_const(B, a))
+            return mk_int(B + a - and_const(B, a, it))
         return mk_int(A + B - and_sym(it, A, B))
     if isinstance(op, ast.BitXor):
         if cb and b >= 0:
-            return mk_int(A + b - 2 * and_const(A, b))
+            return mk_int(A + b - 2 * and_const(A, b, it))
         if ca and a >= 0:
-            return mk_int(B + a - 2 * and_const(B, a))
+            return mk_int(B + a - 2 * and_const(B, a, it))
         return mk_int(A + B - 2 * and_sym(it, A, B))
     if isinstance(op, ast.LShift):
         if cb and b >= 0:
@@ -188,7 +188,7 @@ def int_binop(it, op, a, b, node):
         raise Unsupported('shift by symbolic amount')
     if isinstance(op, ast.RShift):
         if cb and b >= 0:
-            return mk_int(A / (1 << b))
+            return mk_int(divmod_const(it, A, 1 << b)[0])
         raise Unsupported('shift by symbolic amount')
     if isinstance(op, ast.Pow):
         if cb and b >= 0 and b <= 4:
